@@ -3,9 +3,6 @@
 From MP Require Import Common.Base Model.Rule Spec.Lang Spec.GreedyOk Spec.LangDec
   Proofs.C01_Total Proofs.C01_Lang Proofs.C01_Sound Proofs.C01_Complete.
 
-Definition Llentop (mixed : bool) (top : option spec) (w : list pystr) : Prop :=
-  match top with None => w = [] | Some sp => Llen mixed sp w end.
-
 Definition allowed_names (top : option spec) (w : list pystr) : Prop :=
   Forall (fun c => In c (names_of_top top)) w.
 
